@@ -1124,6 +1124,10 @@ pub fn run_c13(tier: Tier) -> i32 {
 }
 
 pub fn replay_c13(case: &Value) -> i32 {
+    #[cfg(inkayaku_verif)]
+    if case["kind"] == "rejected_then_accepted_position" {
+        return crate::engine_sched::replay_position_triple(case);
+    }
     let started = Instant::now();
     let rep = Reporter::new("C13");
     let fen = case["fen"].as_str().unwrap_or("");
